@@ -1,6 +1,13 @@
 package main
 
-import "fmt"
+import (
+	"bytes"
+	"fmt"
+	"math"
+	"os"
+
+	"github.com/jackc/pgx/v5/pgtype"
+)
 
 func init() { runners["C09"] = runC09 }
 
@@ -29,10 +36,56 @@ func typeValues(o int) []valT {
 	return nil
 }
 
+// float_text: float4/float8 columns in text format, every special value and range end
+func runC09floats(c *runCfg) {
+	f8 := []uint64{0, 0x8000000000000000, 0x3ff0000000000000, 0xbff0000000000000, 0x7ff0000000000000, 0xfff0000000000000, 0x7ff8000000000000, 0x7fefffffffffffff, 0xffefffffffffffff,
+		1, 0x8000000000000001, 0x0010000000000000, 0x400921fb54442d18, 0x3fb999999999999a, 0x4340000000000000, 0x7e37e43c8800759c, 0x3e112e0be826d695}
+	f4 := []uint32{0, 0x80000000, 0x3f800000, 0xbf800000, 0x7f800000, 0xff800000, 0x7fc00000, 0x7f7fffff, 0xff7fffff, 1, 0x80000001, 0x00800000, 0x40490fdb, 0x3dcccccd, 0x4b800000}
+	id := 9700000
+	for variant := 0; variant < 3; variant++ {
+		cols := []colT{{name: []byte("d"), oid: 701}, {name: []byte("f"), oid: 700}}
+		if variant == 1 {
+			cols = cols[:1]
+		} else if variant == 2 {
+			cols = cols[1:]
+		}
+		st := stmtT{id: 1, cols: cols, ret: "nil"}
+		n := len(f8)
+		for i := 0; i < n; i++ {
+			var row []valT
+			for _, cc := range cols {
+				if cc.oid == 701 {
+					row = append(row, valT{kind: "float8", n: int64(f8[i%len(f8)])})
+				} else {
+					row = append(row, valT{kind: "float4", n: int64(f4[i%len(f4)])})
+				}
+			}
+			st.prog = append(st.prog, opT{kind: "row", vals: row})
+		}
+		st.prog = append(st.prog, opT{kind: "complete", tag: []byte(fmt.Sprintf("SELECT %d", n))})
+		cfg := cfgT{limit: 4096, auth: "none", term: "none", parse: []parseEntry{{query: []byte("q"), stmts: []stmtT{st}}}}
+		cs := lockCase(id, "float_text", cfg, stdStartup, [][]byte{mQuery([]byte("q"))})
+		setInflight("(c09f " + cs.id + " float_text)")
+		o := runSession(cs)
+		why := floatTextCheck(cs, o)
+		if o.panicv != "" {
+			why = "panic: " + o.panicv
+		}
+		c.out.line(sx("c09f", id, "float_text", sx("cols", len(cols)), sx("rows", n), sx("why", []byte(why))))
+		c.stat("class_float_text")
+		id++
+	}
+}
+
 func runC09(c *runCfg) error {
 	if c.replay != "" {
+		if b, err := os.ReadFile(c.replay); err == nil && bytes.Contains(b, []byte("(c09f ")) {
+			runC09floats(c)
+			return nil
+		}
 		return replaySessions(c)
 	}
+	runC09floats(c)
 	g := &gen{rng: c.rng}
 	id := 0
 	types := []int{16, 21, 23, 20, 25, 1043, 17, 2950, 700, 701}
@@ -236,4 +289,75 @@ func runC09(c *runCfg) error {
 		}
 	}
 	return nil
+}
+
+// floatTextCheck: class float_text — a statement whose columns are all float4/float8, executed once by a simple Query
+// (text format). The client decodes every DataRow field with pgx's own text scanner and must get the float the
+// handler wrote, bit for bit (any NaN for a NaN). Float-to-text conversion is not part of the Coq model (C09 is
+// partial there); this round trip through a real client decoder is judged by the harness.
+func floatTextCheck(cs *caseT, o *obsT) string {
+	if cs.class != "float_text" || len(cs.cfg.parse) != 1 || len(cs.cfg.parse[0].stmts) != 1 {
+		return ""
+	}
+	st := cs.cfg.parse[0].stmts[0]
+	var rows [][]valT
+	for _, op := range st.prog {
+		if op.kind == "row" {
+			rows = append(rows, op.vals)
+		}
+	}
+	m := pgtype.NewMap()
+	k := 0
+	for b := o.out; len(b) >= 5; {
+		l := int(uint32(b[1])<<24 | uint32(b[2])<<16 | uint32(b[3])<<8 | uint32(b[4]))
+		if l < 4 || len(b) < 1+l {
+			break
+		}
+		if b[0] == 'D' {
+			if k >= len(rows) {
+				return "more DataRow messages than rows written"
+			}
+			body := b[5 : 1+l]
+			n := int(body[0])<<8 | int(body[1])
+			body = body[2:]
+			if n != len(rows[k]) {
+				return fmt.Sprintf("row %d has %d fields, %d values were written", k, n, len(rows[k]))
+			}
+			for j := 0; j < n; j++ {
+				fl := int(int32(uint32(body[0])<<24 | uint32(body[1])<<16 | uint32(body[2])<<8 | uint32(body[3])))
+				body = body[4:]
+				if fl < 0 {
+					return fmt.Sprintf("row %d field %d is NULL, a float was written", k, j)
+				}
+				txt := body[:fl]
+				body = body[fl:]
+				v := rows[k][j]
+				if v.kind == "float8" {
+					var got float64
+					if err := m.Scan(701, pgtype.TextFormatCode, txt, &got); err != nil {
+						return fmt.Sprintf("row %d field %d: the text %q does not scan as float8: %v", k, j, txt, err)
+					}
+					want := math.Float64frombits(uint64(v.n))
+					if math.Float64bits(got) != math.Float64bits(want) && !(math.IsNaN(got) && math.IsNaN(want)) {
+						return fmt.Sprintf("row %d field %d: float8 %v was written, the client decodes the text %q as %v", k, j, want, txt, got)
+					}
+				} else {
+					var got float32
+					if err := m.Scan(700, pgtype.TextFormatCode, txt, &got); err != nil {
+						return fmt.Sprintf("row %d field %d: the text %q does not scan as float4: %v", k, j, txt, err)
+					}
+					want := math.Float32frombits(uint32(v.n))
+					if math.Float32bits(got) != math.Float32bits(want) && !(got != got && want != want) {
+						return fmt.Sprintf("row %d field %d: float4 %v was written, the client decodes the text %q as %v", k, j, want, txt, got)
+					}
+				}
+			}
+			k++
+		}
+		b = b[1+l:]
+	}
+	if k != len(rows) {
+		return fmt.Sprintf("%d DataRow messages for %d rows written", k, len(rows))
+	}
+	return ""
 }
